@@ -32,6 +32,7 @@ def run(ctx):
     from rules import C17
     C17.parse_errors(ctx, facts)      # the receive path parses records with RecordsStream: a parse error must surface
     core(ctx, facts)
+    shard_counts(ctx, facts)
     from rules import C01
     C01.prf_wiring(ctx, facts)        # resharding by PRF value: the picker reads the PRF value only (same on all helpers)
     ctx.assume("gateway delivery (C13) and message timing are not decided here")
@@ -500,3 +501,94 @@ def wrappers(ctx, facts):
             ctx.ob("WRAP", "peer_shards:all-others-once", why is None, "peer_shards() = (0..shard_count) without this shard" if why is None else why, site_of(pb))
     finally:
         flow.CLOSURE_DEFS = flow_old
+
+
+# ---------------------------------------------------------------------------------------------
+def shard_counts(ctx, facts):
+    """Every routing decision is `something % shard_count()`, on every shard of a helper and on all three helpers: they
+    agree only if all of them see the same count.  The count is derived in layers (transport: number of peers; gateway:
+    peers + 1; contexts: forwarded) and the HTTP transports - compiled in the real-world-infra configurations only -
+    override the default `peers().count()`; an override that is off by one changes the modulus on real deployments and
+    nowhere else."""
+    from rules.C13 import ieval, NoEval
+    ctx.rule("COUNT-shards: every override of Transport::peer_count equals, evaluated for 1..6 shards, the number of items of the same impl's peers() (source collection minus this identity) or forwards to the inner transport; &Gateway::shard_count = peer_count(shard transport) + 1; every other ShardConfiguration::shard_count is a field read or forwards to an inner value")
+    old = flow.CLOSURE_DEFS
+    flow.CLOSURE_DEFS = True
+    try:
+        n_over = 0
+        for p, b in sorted(facts.bodies.items()):
+            if facts.is_test_path(p) or not b.file.startswith("ipa-core/"):
+                continue
+            m = re.match(r"^<(.+) as helpers::transport::Transport>::peer_count$", p)
+            if not m:
+                continue
+            ctx.count(bodies=1)
+            n_over += 1
+            who = m.group(1).split("::")[-1]
+            e = flow.expr_of(b, {"cp": [0]}, max_depth=10)
+            if e[0] == "call" and e[1].endswith("Transport::peer_count") and e[2][0][0] == "arg" and e[2][0][1] == 1:
+                ctx.ob("COUNT-shards", f"peer_count:{who}", True, "forwards to the inner transport", site_of(b))
+                continue
+            e2 = e
+            while e2[0] == "call" and re.search(r"(TryFrom::try_from|TryInto::try_into|From::from|Into::into|Result::<T, E>::(unwrap|expect)|Option::<T>::(unwrap|expect))$", e2[1]):
+                e2 = e2[2][0]
+            if e2[0] == "call" and e2[1].endswith("Iterator::count") and e2[2][0][0] == "call" and e2[2][0][1].endswith("Transport::peers") and e2[2][0][2] == (("arg", 1),):
+                ctx.ob("COUNT-shards", f"peer_count:{who}", True, "counts its own peers()", site_of(b))
+                continue
+            pb = facts.bodies.get(p[:-len("peer_count")] + "peers")
+            why = None
+            if pb is None:
+                why = "peer_count is overridden but peers() of the same impl was not found"
+            else:
+                pe = flow.expr_of(pb, {"cp": [0]}, max_depth=10)
+                while pe[0] == "call" and re.search(r"Iterator::(copied|cloned)$", pe[1]):
+                    pe = pe[2][0]
+                if not (pe[0] == "call" and pe[1].endswith("Iterator::filter")):
+                    why = "peers() is not `collection.filter(|v| v != this)`"
+                else:
+                    src, cl = pe[2][0], pe[2][1]
+                    cb = facts.bodies.get(cl[1][1]) if cl[0] == "agg" and isinstance(cl[1], tuple) else None
+                    pred = flow.expr_of(cb, {"cp": [0]}, max_depth=8) if cb is not None else None
+                    if not (pred and ((pred[0] == "call" and pred[1].endswith("PartialEq::ne")) or (pred[0] == "bin" and pred[1] == "Ne"))):
+                        why = "the filter of peers() is not `!= this identity`"
+                    SC = ("arg", 1, "shard_count")
+                    if why is None:
+                        if src == ("call", "sharding::ShardIndex::iter", (SC,)):
+                            size = lambda n: n
+                            rng = range(1, 7)
+                        elif "make_three" in str(src) or "Role::all" in str(src):
+                            size = lambda n: 3
+                            rng = range(3, 4)
+                        else:
+                            why = "cannot tell how many identities peers() draws from"
+                    if why is None:
+                        try:
+                            for n in rng:
+                                got = ieval(e, {SC: n, ("call", "std::convert::From::from", (SC,)): n})
+                                if got != size(n) - 1:
+                                    why = f"with {size(n)} identities in the network peers() yields {size(n) - 1} but peer_count() returns {got}: the gateway's shard_count (peer_count + 1) is {got + 1} on this transport - a different modulus for every `% shard_count` routing decision than on the other transports / helpers"
+                                    break
+                        except NoEval as ex:
+                            why = f"cannot evaluate peer_count ({ex})"
+            ctx.ob("COUNT-shards", f"peer_count:{who}", why is None, "equals the number of peers()" if why is None else why, site_of(b))
+        ctx.floor("COUNT-shards", "Transport::peer_count overrides", n_over, 2)
+        n_sc = 0
+        for p, b in sorted(facts.bodies.items()):
+            if facts.is_test_path(p) or not b.file.startswith("ipa-core/") or not re.search(r"sharding::ShardConfiguration(>| for ).*::shard_count$", p):
+                continue
+            ctx.count(bodies=1)
+            n_sc += 1
+            e = flow.expr_of(b, {"cp": [0]}, max_depth=10)
+            ty = p.split(" as ")[0].lstrip("<") if " as " in p else p.split(" for ")[-1].rsplit(">::", 1)[0]
+            ty = re.sub(r"<.*", "", ty)
+            who = ("&" if ty.startswith("&") else "") + "::".join(ty.lstrip("&").split("::")[-2:])
+            if re.search(r"(^<&|for &)helpers::gateway::Gateway", p):
+                ok = e == ("call", "std::convert::From::from", (("bin", "Add", ("call", "helpers::transport::Transport::peer_count", (("arg", 1, "transports", "shard"),)), ("const", 1)),))
+                ctx.ob("COUNT-shards", "shard_count:&Gateway", ok, "peer_count(shard transport) + 1" if ok else f"the gateway's shard count is not the shard transport's peer_count() + 1 (this instance): {str(e)[:120]}", site_of(b))
+                continue
+            fwd = e[0] == "call" and e[1].endswith("ShardConfiguration::shard_count") and len(e[2]) == 1 and "'bin'" not in str(e[2][0])
+            fld = e[0] == "arg" and e[1] == 1 and e[-1] == "shard_count"
+            ctx.ob("COUNT-shards", f"shard_count:{who}", fwd or fld, "forwards / reads the stored count" if (fwd or fld) else f"shard_count() of this layer computes something of its own ({str(e)[:100]}): the layers disagree about the modulus", site_of(b))
+        ctx.floor("COUNT-shards", "ShardConfiguration::shard_count impls", n_sc, 6)
+    finally:
+        flow.CLOSURE_DEFS = old
